@@ -18,5 +18,5 @@ def run(run, tier, seed, args):
         "assumed externals: pool._invoke_creator returns a new open DBAPI connection or raises with nothing opened; pool._close_connection closes (close attempted counts as closed, exceptions swallowed there); pool._return_conn is counted by a ghost counter",
         "event hooks (dispatch.*) and logging do not touch the ghost state and do not raise; time.time() is an arbitrary integer (no monotonicity is needed by the clauses)",
         "QueuePool._do_get (shared with C25): creator failures of any exception class leave the overflow accounting as it was",
-        "under proof: __close, __connect, close, invalidate, get_connection, checkin, _is_hard_or_soft_invalidated; checkout / _checkin_failed / _finalize_fairy / _ConnectionFairy._checkout (retry loop, pre-ping) and the pool classes are in the bounded complement",
+        "under proof: __close, __connect, close, invalidate, get_connection, checkin, _checkin_failed, _is_hard_or_soft_invalidated; checkout / _finalize_fairy / _ConnectionFairy._checkout (retry loop, pre-ping) and the pool classes are in the bounded complement",
     ]
